@@ -383,7 +383,8 @@ class USBResetSequencer(Elaboratable):
 
                 # If we've exceeded our minimum chirp time, consider this a valid pattern
                 # bit, and advance in the pattern.
-                with m.If(line_state_time == self._CYCLES_2P5_MICROSECONDS):
+                with m.If((line_state_time == self._CYCLES_2P5_MICROSECONDS) &
+                          (self.line_state == self._LINE_STATE_FS_HS_J)):
 
                     # If this would complete our third pair, this completes a handshake,
                     # and we've identified a high speed host!
